@@ -152,6 +152,35 @@ func (d *sdriver) ops(w *world.World, depth int, path []string) []engine.Op {
 			})
 		}
 	}
+	// grants whose lockup and vesting totals differ in a denomination one of the two does not have
+	// at all: both message kinds must refuse them (every coin of a grant needs a lockup and a vesting event)
+	a4 := rm.One(world.Denom, 4)
+	a2 := rm.One(world.Denom, 2)
+	for _, ms := range []sched{
+		{"lockup-has-extra-denom", plist{{Len: 10, A: a4.Add(rm.One("atest", 2))}}, plist{{Len: 10, A: a2}, {Len: 10, A: a2}}},
+		{"vesting-has-extra-denom", plist{{Len: 10, A: a4}}, plist{{Len: 10, A: a2.Add(rm.One("atest", 1))}, {Len: 10, A: a2.Add(rm.One("atest", 1))}}},
+	} {
+		for _, kind := range []string{"msgCreate", "msgConvertInto"} {
+			ms, kind := ms, kind
+			add(fmt.Sprintf("mismatched(%s,%s)", kind, ms.name), func(p []string, res *engine.Result, m vmodel) (string, vmodel) {
+				w := d.w
+				st := time.Unix(d.t0, 0).UTC()
+				var msg sdk.Msg
+				if kind == "msgCreate" {
+					msg = vtypes.NewMsgCreateClawbackVestingAccount(d.F, d.V, st, ms.lock.sdk(), ms.vest.sdk(), true)
+				} else {
+					msg = vtypes.NewMsgConvertIntoVestingAccount(d.F, d.V, st, ms.lock.sdk(), ms.vest.sdk(), true, false, nil)
+				}
+				_, err := w.RunMsg(w.Ctx(), msg)
+				res.Evaluations++
+				if err == nil {
+					d.viol(res, "create", kind, "mismatched-totals", "a grant whose lockup and vesting totals differ was accepted", p, map[string]any{"lockup": ms.lock.sdk().String(), "vesting": ms.vest.sdk().String()})
+					return "ok", m
+				}
+				return engine.ErrClass(err), m
+			})
+		}
+	}
 	s1 := schedules(d.tier)[0]
 	add("mergeCreateByG(s1,start+0)", func(p []string, res *engine.Result, m vmodel) (string, vmodel) {
 		return d.grant("msgCreate", true, d.G, s1, d.t0, p, res, m)
